@@ -323,6 +323,10 @@ LGTerms ==
      Op("le", <<Op("minus", <<Xx, Yy>>), IntC(3)>>), Op("le", <<Op("minus", <<Op("minus", <<Xx, IntC(1)>>), Yy>>), IntC(3)>>),
      Op("equals", <<Op("minus", <<Xx, Yy>>), Op("minus", <<Yy, Xx>>)>>),
      Op("le", <<Op("minus", <<Xx, Yy>>), Sym("z", TInt)>>),
+     Op("equals", <<Sym("z", TInt), Op("minus", <<Xx, Yy>>)>>), Op("equals", <<Op("minus", <<Xx, Yy>>), Sym("z", TInt)>>),
+     Op("equals", <<Xx, Op("minus", <<IntC(3), Yy>>)>>),
+     Op("equals", <<Op("minus", <<Sym("r", TReal), Sym("u", TReal)>>), Sym("v", TReal)>>),
+     Op("equals", <<Op("minus", <<Xx, Yy>>), IntC(3)>>),
      Op("le", <<Op("ite", <<P, Xx, Yy>>), Op("minus", <<IntC(3), Sym("z", TInt)>>)>>),
      Op("le", <<Op("minus", <<App("f", TF1, <<Xx>>), Yy>>), Sym("z", TInt)>>),
      Op("lt", <<Op("minus", <<Xx, App("f", TF1, <<Yy>>)>>), IntC(3)>>),
